@@ -543,3 +543,81 @@ def parser_tokens(w, repo):
             ok = rc != 0 and out == b""
             detail = "find f %s: rc=%d stdout=%r, reference: rejected (%s)" % (" ".join(toks), rc, out, want["why"])
         return (not ok), detail
+
+
+# ------------------------------------------------------------------------------------------ C04/C19: MIR-level batching witnesses (exact)
+def _ref_batching(lens, hard, cfg, n_lim, l_lim, s_lim, cmdlen, outcomes):
+    """reference from the property: greedy, order-preserving batching under all limits; returns (batches, exit_code)"""
+    def fits(ids):
+        ok = True
+        if cfg["n"]: ok = ok and len(ids) <= n_lim
+        if cfg["L"]: ok = ok and 1 + sum(1 for i in ids[:-1] if hard[i]) <= l_lim
+        if cfg["s"]: ok = ok and (cmdlen + 1) + sum(lens[i] + 1 for i in ids) <= s_lim
+        return ok
+    if not fits([]):
+        return [], 1
+    batches, cur, failed, ran = [], [], False, 0
+
+    def run_batch(b):
+        nonlocal failed, ran
+        o = outcomes[ran] if ran < len(outcomes) else 0
+        ran += 1
+        batches.append(b)
+        if o == 1: failed = True
+        return o == 2
+    for i in range(len(lens)):
+        if fits(cur + [i]):
+            cur.append(i)
+            continue
+        over_s = cfg["s"] and (cmdlen + 1) + sum(lens[j] + 1 for j in cur + [i]) > s_lim
+        if over_s and cfg["x"] and (cfg["n"] or cfg["L"]):
+            return batches, 1
+        if cur and run_batch(cur):
+            return batches, 124
+        cur = []
+        if not fits([i]):
+            return batches, 1
+        cur = [i]
+    if cur or not cfg["r"]:
+        if run_batch(cur):
+            return batches, 124
+    return batches, 123 if failed else 0
+
+
+def batching(w, repo):
+    if not build(repo):
+        return None, "build failed"
+    wit, cfg = w.get("witness"), w.get("config")
+    if not wit or not cfg:
+        return None, "witness without values"
+    g = lambda k, d=0: int(wit.get(k, d))
+    nargs = w.get("nargs", 0)
+    lens = [g("len%d" % i, 1) for i in range(nargs)]
+    hard = [wit.get("hard%d" % i, "True") == "True" for i in range(nargs)]
+    outcomes = [g("out%d" % i, 0) for i in range(nargs + 1)]
+    n_lim, l_lim, s_lim, cmdlen = g("max_args", 1), g("max_lines", 1), g("max_chars", 0), g("cmdlen", 1)
+    want_batches, want_rc = _ref_batching(lens, hard, cfg, n_lim, l_lim, s_lim, cmdlen, outcomes)
+    with Sandbox() as d:
+        name = "c" * cmdlen
+        rec = os.path.join(d, name)
+        open(rec, "w").write(_REC)
+        os.chmod(rec, 0o755)
+        log = os.path.join(d, "rec.log")
+        open(log, "w").close()
+        inp = b"".join(bytes([97 + i]) * lens[i] + (b"\n" if hard[i] else b" ") for i in range(nargs))
+        codes = ",".join({0: "0", 1: "1", 2: "255"}[o] for o in outcomes)
+        args = []
+        if cfg["n"]: args += ["-n", str(n_lim)]
+        if cfg["L"]: args += ["-L", str(l_lim)]
+        if cfg["s"]: args += ["-s", str(max(s_lim, 1))]
+        if cfg["x"]: args += ["-x"]
+        if cfg["r"]: args += ["-r"]
+        env = dict(os.environ, REC_LOG=log, REC_CODES=codes, PATH=d + ":" + os.environ.get("PATH", ""))
+        rc, out, err = run([xargs_bin(repo)] + args + [name], cwd=d, inp=inp, env=env)
+        calls = [l.split(":", 1)[1].split() for l in open(log).read().splitlines()]
+        want_calls = [[chr(97 + i) * lens[i] for i in b] for b in want_batches]
+        ok = calls == want_calls and rc == want_rc
+        detail = "xargs %s %s <%r: invocations %r rc=%d; reference %r rc=%d" % (" ".join(args), name, inp, calls, rc, want_calls, want_rc)
+        if cfg["n"] and cfg["L"]:
+            return None, "-n with -L is normalised by the option parser; not replayable as given"
+        return (not ok), detail
